@@ -383,7 +383,12 @@ def machine_factory(ctx: Ctx, hooks: typing.Any) -> typing.Any:
 
 
 def parts(ctx: Ctx) -> typing.List[Part]:
-    ws = st.one_of(wsp.definitions(max_defs=8, roots=3), wsp.definitions(max_defs=8, roots=2, shorts=["A", "B"], subs=["sub"]))
+    ws = st.one_of(
+        wsp.definitions(max_defs=8, roots=3),
+        wsp.definitions(max_defs=8, roots=2, shorts=["A", "B"], subs=["sub", "A", "Ba"]),
+        # namespaces whose components repeat (or extend) the short names: ns.A.A, ns.A.Ab, ns.Ab.A.A ...
+        wsp.definitions(max_defs=7, roots=1, shorts=["A", "Ab"], subs=["A", "Ab"]),
+    )
     resolve_cases = st.fixed_dictionaries({"ws": ws, "targets": st.lists(st.integers(0, 30), min_size=1, max_size=4)})
     fault = st.fixed_dictionaries(
         {
